@@ -2,5 +2,7 @@ PROP = {
     "level": "exploration",
     "stages": [
         {"name": "main"},
+        # dependency `unsafe` (lexical-core, memchr, bstr, zlib-rs, bzip2, lzma) reached by the same workload, reduced
+        {"name": "asan", "variant": "asan", "args": ["inproc=1", "records=6000", "huge_cases=1"], "tiers": ("thorough",), "optional": True, "timeout": 3600},
     ],
 }
